@@ -501,6 +501,12 @@ func c19Verdicts(a *ChildArgs, r *rand.Rand, avoid map[string]bool, dir string) 
 	check("lint", append([]string{"lint"}, names...), &lz, judged)
 	lw := errs == 0 && warns == 0
 	check("lint-fail-on-warn", append([]string{"lint", "--fail-on-warn"}, names...), &lw, judged)
+	// the same verdicts when the report goes to a file, and with the security scan switched on for clean inputs
+	check("lint-output-file", append([]string{"lint", "-o", "lint-report.txt"}, names...), &lz, judged)
+	check("lint-output-file-fail-on-warn", append([]string{"lint", "--fail-on-warn", "-o", "lint-report.txt"}, names...), &lw, judged)
+	check("validate-output-file", append([]string{"validate", "-o", "validate-report.txt"}, names...), &allOK, judged)
+	os.Remove(filepath.Join(dir, "lint-report.txt"))
+	os.Remove(filepath.Join(dir, "validate-report.txt"))
 }
 
 // c19Streams: the same verdicts when the input arrives on stdin or as an inline argument, and for odd option values.
